@@ -7,7 +7,12 @@ let () =
     | "solve" -> Plevel_cmd.run_solve_full
     | "ctx" -> Plevel_cmd.run_ctx
     | "view" -> Plevel_cmd.run_view
+    | "lower" -> Mlevel_cmd.run_lower
+    | "msolve" -> Mlevel_cmd.run_msolve
+    | "mspell" -> Mlevel_cmd.run_mspell
     | "lp" -> Lp_cmd.run_case
+    | "fi" -> Fi_cmd.run_case_fi
+    | "ctxf" -> Fi_cmd.run_case_ctxf
     | "limits" -> Limits_cmd.run_case_full
     | "lpjudge" -> Lp_cmd.judge
     | "gac" -> Gac_cmd.run_case
